@@ -249,7 +249,7 @@ def standin_token_positions(tier, seed):
         if st != 'OK':
             continue    # some random sequences do not tokenise (e.g. an unterminated construct): not this stand-in's business
         b = src.encode()
-        got = [x.split('|') for x in out.split('\x1f')]
+        got = [x.split('\x1e') for x in out.split('\x1f')]
         got = [g for g in got if g[0] not in ('END',)]
         if len(got) != len(toks):
             continue    # adjacent pieces merged into other tokens (e.g. `=` `=`): positions below would not line up
@@ -269,7 +269,7 @@ def standin_longest_operator(tier, seed):
     cases = ['a %s b' % o for o in ops] + ['a%sb' % o for o in ops]
     res = R.driver('tokens', cases)
     for src, o, (st, out) in zip(cases, ops + ops, res):
-        frags = [x.split('|')[1] for x in out.split('\x1f')] if st == 'OK' else []
+        frags = [x.split('\x1e')[1] for x in out.split('\x1f')] if st == 'OK' else []
         if o not in frags:
             return dict(name='longest_operator', bound='the %d two-character operators, with and without blanks' % len(ops), cases=len(cases), status='violation',
                         detail='`%s` does not yield the single token `%s`: %s %s' % (src, o, st, frags),
@@ -288,7 +288,7 @@ def standin_env_fields(tier, seed):
     work = tempfile.mkdtemp(prefix='verif_env_')
     n = 0
     try:
-        maxf = 4 if tier == 'thorough' else 3
+        maxf = 3 if tier == 'thorough' else 2
         for k in range(1, maxf + 1):
             for combo in itertools.product('sinlt', repeat=k):
                 flds, exp = [], ''
@@ -308,17 +308,17 @@ def standin_env_fields(tier, seed):
                                 detail='%s -> %r, expected %r' % (src.strip(), got, exp),
                                 input=dict(source=src, expected=exp, observed=got if got is not None else 'rc=%d %s' % (rc, se[-200:]), how='`ucg build e.ucg`, artifact e.env'))
         # hostile values through a real shell
-        for v in ["a'b", 'x $HOME `id` "q" \\ * ', 'line1\\nline2', "'", '$(echo hi)']:
-            src = 'out env {V = "%s"};\n' % v.replace('"', '\\"')
+        import subprocess
+        for v in ["a'b", 'x $HOME `id` "q" \\ * ', 'line1\nline2', "'", '$(echo hi)', "it's a \\'test\\'"]:
+            ucg_lit = v.replace('\\', '\\\\').replace('"', '\\"').replace('\n', '\\n')
+            src = 'out env {V = "%s"};\n' % ucg_lit
             open(os.path.join(work, 'e.ucg'), 'w').write(src)
             rc, so, se = R.run_ucg(['build', 'e.ucg'], work)
-            import subprocess
             p = subprocess.run(['/bin/sh', '-c', '. ./e.env; printf %s "$V"'], cwd=work, capture_output=True, text=True)
-            exp = v.replace('\\n', '\n').replace('\\\\', '\\').replace('\\"', '"')
             n += 1
-            if rc != 0 or p.stdout != exp:
-                return dict(name='env_fields', bound='...', cases=n, status='violation', detail='value %r arrives in /bin/sh as %r' % (exp, p.stdout),
-                            input=dict(source=src, expected=exp, observed=p.stdout, how='`ucg build`, then `. ./e.env` in /bin/sh'))
+            if rc != 0 or p.stdout != v:
+                return dict(name='env_fields', bound='...', cases=n, status='violation', detail='value %r arrives in /bin/sh as %r' % (v, p.stdout),
+                            input=dict(source=src, expected=v, observed=p.stdout, how='`ucg build`, then `. ./e.env` in /bin/sh'))
     finally:
         shutil.rmtree(work, ignore_errors=True)
     return dict(name='env_fields', bound='tuples of 1..%d fields over {string, int, NULL, list, tuple} in every order + 5 hostile values through /bin/sh' % maxf, cases=n, status='ok')
